@@ -272,10 +272,12 @@ AWK_NAMES = ["Vector2D", "Vector3D", "Vector4D", "Momentum2D", "Momentum3D", "Mo
 AWK_OBJ = ["VectorObject2D", "VectorObject3D", "VectorObject4D"]
 
 
-def table_obligations(ctx, rule, only_ufuncs=None):
+def table_obligations(ctx, rule, only_ufuncs=None, backends=None):
     """one obligation per (backend, ufunc, kinds, dimension)"""
     n = 0
     for backend in BACKENDS:
+        if backends is not None and backend not in backends:
+            continue
         branches, has_else, fn = extract_array_ufunc(backend, ctx.repo)
         rel = BACKENDS[backend][0]
         by = {}
